@@ -70,14 +70,14 @@ CHECKS = {
     "C08": dict(
         engine="bfs+sched",
         technique="explicit-state BFS over broker operation histories against a deque on both brokers + exhaustive deviation-bounded schedule exploration of concurrent SQLite actors with a brute-force linearizability check",
-        text="Histories: BFS to depth 6 (8) over route / batch (repeated ids, empty) / retrieve / count / purge; result, count and the stored order are compared with a deque after every step on the in-memory and SQLite broker. Schedules: 2-3 SQLite actors (retrievers, routers, counter), one app object each, a scheduling point at every SQL statement, all schedules with <= 2 deviations (3 actors: 1); each execution's call/return history must be linearizable w.r.t. the deque and leave the deque's content.",
+        text="Histories: BFS to depth 6 (8) over route / batch (repeated ids, empty) / retrieve / count / purge; result, count and the stored order are compared with a deque after every step on the in-memory and SQLite broker. Schedules: 2-3 SQLite actors (retrievers, routers, counter), one app object each, a scheduling point at every SQL statement, all schedules with <= 2 deviations (3 actors: 1); each execution's call/return history must be linearizable w.r.t. the deque and leave the deque's content. The same programs are explored on the in-memory broker (threads sharing one broker object, a point at every source line of mem_broker).",
         note="A batch route is judged as a sequence of single routings (the property does not promise atomic batches). julianday('now') is real time; ties broken by rowid.",
         design_ref="§2 C08",
     ),
     "C10": dict(
         engine="sched",
         technique="stateless exploration of all schedules up to a deviation bound with the background history writers as independent scheduler threads; stored history compared with the monitor's list of successful changes",
-        text="The C02 worlds (claims, duplicate messages, batch registration, blocking path, pending/running recovery, kill, late finisher) with every history writer thread scheduled as an actor that by default runs arbitrarily late; all schedules with <= 1 deviation (single: 2; thorough +1). After the flush: per invocation, history sorted by time of change == list of successful changes (status, owner, acting runner, timestamp), starts at REGISTERED, ends at the current record, is a path of the frozen lifecycle graph.",
+        text="The C02 worlds (claims, duplicate messages, batch registration, blocking path, pending/running recovery, kill, late finisher) with every history writer thread scheduled as an actor that by default runs arbitrarily late; all schedules with <= 1 deviation (single: 2; thorough +1). After the flush: per invocation, history sorted by time of change == list of successful changes (status, owner, acting runner, timestamp), starts at REGISTERED, ends at the current record, is a path of the frozen lifecycle graph. Worlds also include retry, failure and concurrency-control lifecycles (two poller+worker actors); 12 of the 14 statuses occur in the compared histories. Every actor additionally flushes per invocation and reads inside the schedule: its own changes must be in the history.",
         note="The monitor orders changes by the timestamp taken inside the atomic transition. Same scheduling-point placement as C02.",
         design_ref="§2 C10",
     ),
@@ -101,7 +101,7 @@ CHECKS["C15"] = dict(
 CHECKS["C17"] = dict(
     engine="enum",
     technique="exhaustive enumeration of all ordered pairs (thorough: plus triples of a core) of an adversarial application-id set, each with a fixed operation alphabet incl. every component purge, with a full read-out of the observed app before and after every operation",
-    text="43 (79) ids: punctuation / case / leading-digit / unicode / 200-char / empty-like / SQL-text / LIKE-wildcard variants and ids constructed from another id's storage prefix (tp(a), tp(a)+'__'+component, swapped case, '_'->Z, prefix not at start, two-level chain). Every ordered pair (A acts, B observed) on one shared SQLite file and in one process with two in-memory apps: both populated through the public API, then 25 operations on A (routes, claims, status, results, heartbeats, events, trigger loop, workflow data, data store, auto-purge, purge of each of the 5 components, app.purge(), re-population), B's 63-65-query read-out (+ raw dump of its tables) compared after each; storage names of A and B disjoint and matching ^[A-Za-z0-9_]+$; no exception from hostile ids. Thorough adds purges-before-writes for a 12-id core and all 220 triples.",
+    text="43 (79) ids: punctuation / case / leading-digit / unicode / 200-char / empty-like / SQL-text / LIKE-wildcard variants and ids constructed from another id's storage prefix (tp(a), tp(a)+'__'+component, swapped case, '_'->Z, prefix not at start, two-level chain). Every ordered pair (A acts, B observed) on one shared SQLite file and in one process with two in-memory apps: both populated through the public API, then 25 operations on A (routes, claims, status, results, heartbeats, events, trigger loop, workflow data, data store, auto-purge, purge of each of the 5 components, app.purge(), re-population), B's 63-65-query read-out (+ raw dump of its tables) compared after each; storage names of A and B disjoint and matching ^[A-Za-z0-9_]+$; no exception from hostile ids. Thorough adds purges-before-writes for a 12-id core and all 220 triples. The ids include pairs that Unicode normalisation or case folding would identify (NFC / NFD, ligature, superscript; thorough: KELVIN SIGN, fullwidth digit, sharp s).",
     note="The empty string is treated as a legal id (unvalidated config field). sqlite_sequence belongs to no app. One world per acting app.",
     design_ref="§2 C17",
 )
@@ -117,7 +117,7 @@ CHECKS["C20"] = dict(
 CHECKS["C19"] = dict(
     engine="enum+sched",
     technique="exhaustive enumeration of generated task programs, each executed inline (sync mode) and by the real ThreadRunner on the in-memory and SQLite stacks in a whole-runner simulation under the controlled scheduler (virtual time, default and round-robin schedules); outcomes compared",
-    text="286 programs in quick (more in thorough): every leaf (plain/direct x max_retries 0..2 x {return, succeed on attempt 2/3, always retriable, non-retriable}), root+child, root+2 single children, root+group of 2, root->child->grandchild over a reduced node alphabet. Each runs (a) with dev_mode_force_sync_tasks, (b) memory stack + ThreadRunner.run(), (c) SQLite stack + ThreadRunner.run(), the runner loop, its task threads and the client being scheduler threads (shim threading/time, SQL-statement points), default and round-robin schedule, 2 slots (thorough: 1 and 2). Compared: value or exception class+args at the caller, body executions per node, num_retries; leaves also against the statement's accounting (k, max_retries+1, 1).",
+    text="286 programs in quick (more in thorough): every leaf (plain/direct x max_retries 0..2 x {return, succeed on attempt 2/3, always retriable, non-retriable}), root+child, root+2 single children, root+group of 2, root->child->grandchild over a reduced node alphabet. Each runs (a) with dev_mode_force_sync_tasks, (b) memory stack + ThreadRunner.run(), (c) SQLite stack + ThreadRunner.run(), the runner loop, its task threads and the client being scheduler threads (shim threading/time, SQL-statement points), default and round-robin schedule, 2 slots (thorough: 1 and 2). Compared: value or exception class+args at the caller, body executions per node, num_retries; leaves also against the statement's accounting (k, max_retries+1, 1). Retry accounting also under two interleaved workers (one retrying invocation, whoever polls runs the next attempt; always retriable / succeeds on attempt 2 or 3; max_retries 0..2; memory line points, SQLite statement points), all schedules with <= 1 (2) deviations.",
     note="Group results combined with an order-insensitive sum; each .result read once; exception args compared via repr(). One spin iteration of the thread runner's wait = sleep(10 ms) virtual. Only two deterministic schedules per distributed run (C09 explores deviations).",
     design_ref="§2 C19",
 )
@@ -125,7 +125,7 @@ CHECKS["C19"] = dict(
 CHECKS["C09"] = dict(
     engine="bfs+sched",
     technique="explicit-state BFS over wait declarations / status steps on both orchestrators against a set-of-edges reference wait graph (limit queries in every state) + whole-runner simulation of every call tree up to depth 2 / fan-out 2 on the real ThreadRunner under the controlled scheduler (default, round-robin, all 1-deviation schedules for a core)",
-    text="Wait graph: BFS to depth 5 over wait(x,[y]) / wait(x,[y,z]) / status steps REGISTERED->PENDING->RUNNING->SUCCESS on 3 (4) ids; in every state get_blocking_invocations(n), n in {0,1,2,10}, must be a duplicate-free subset of {waited on, not final, not itself waiting, runnable} of size min(n, |set|), and no edge to a finished invocation remains. Trees: all 41 call trees of depth <= 2, fan-out <= 2 (single .result and group .results) run by ThreadRunner.run() with 1 and 2 slots on memory and SQLite in virtual time (loop thread, task threads and client are scheduler threads) under the default and the round-robin schedule; every schedule with <= 1 deviation for 6 core trees (thorough: all trees, both backends): the root must become final with the right value before the 60 s virtual horizon, no deadlock, every body exactly once.",
+    text="Wait graph: BFS to depth 5 over wait(x,[y]) / wait(x,[y,z]) / status steps REGISTERED->PENDING->RUNNING->SUCCESS on 3 (4) ids; in every state get_blocking_invocations(n), n in {0,1,2,10}, must be a duplicate-free subset of {waited on, not final, not itself waiting, runnable} of size min(n, |set|), and no edge to a finished invocation remains. Trees: all 41 call trees of depth <= 2, fan-out <= 2 (single .result and group .results) run by ThreadRunner.run() with 1 and 2 slots on memory and SQLite in virtual time (loop thread, task threads and client are scheduler threads) under the default and the round-robin schedule; every schedule with <= 1 deviation for 6 core trees (thorough: all trees, both backends): the root must become final with the right value before the 60 s virtual horizon, no deadlock, every body exactly once. Plus 8 trees whose inner nodes run under running-concurrency control (TASK, reroute on): waited-on siblings that may not start while their sibling waits itself.",
     note="Which subset is returned above the limit is unspecified; waits are only declared on non-final invocations; outgoing edges of a finished waiter are outside the alphabet. Fair randomised schedules replaced by the three exhaustive schedule sets. One spin iteration of the wait loop = sleep(10 ms) virtual.",
     design_ref="§2 C09",
 )
@@ -149,7 +149,7 @@ CHECKS["C03"] = dict(
 CHECKS["C18"] = dict(
     engine="enum+sched",
     technique="exhaustive enumeration of workflow programs x re-execution histories x process images through the real submit/claim/run path on both state backends + deviation-bounded schedule exploration of two worker threads running the same task for two workflows",
-    text="Programs: all 155 (thorough 780) sequences of 1-3 (1-4) operations over random / utc_now / uuid / execute_task(sub,0) / execute_task(sub,1), run by one interpreter task through task.wf.*. Histories: three attempts via RetryError; kill-and-reroute and running recovery at every position; two workflows sequential / alternating / with retries; images: same app object, a fresh Pynenc + fresh Task objects on the same SQLite file before every poll, two runner images taking turns. Oracle per workflow: attempt k yields the values of attempt 1 position by position, one sub-invocation per (workflow, call) handed back on later attempts, workflow data of A holds only A's values. Schedules: two threads, same task, two workflows, line points in workflow_deterministic / workflow_context / mem_state_backend or SQL-statement points, <= 1-2 (2-3) deviations.",
+    text="Programs: all 155 (thorough 780) sequences of 1-3 (1-4) operations over random / utc_now / uuid / execute_task(sub,0) / execute_task(sub,1), run by one interpreter task through task.wf.*. Histories: three attempts via RetryError; kill-and-reroute and running recovery at every position; two workflows sequential / alternating / with retries; images: same app object, a fresh Pynenc + fresh Task objects on the same SQLite file before every poll, two runner images taking turns. Oracle per workflow: attempt k yields the values of attempt 1 position by position, one sub-invocation per (workflow, call) handed back on later attempts, workflow data of A holds only A's values. Schedules: two threads, same task, two workflows, line points in workflow_deterministic / workflow_context / mem_state_backend or SQL-statement points, <= 1-2 (2-3) deviations. Isolation clause: what a workflow draws (random / uuid) under a preempting schedule must equal what the same two workflows draw under the default schedule.",
     note="The harness time base of utc_now follows the virtual clock through a datetime shim installed by the check. pynenc's own deterministic random/uuid are not the harness's uuid4 replacement.",
     design_ref="§2 C18",
 )
@@ -164,7 +164,7 @@ CHECKS["C13"] = dict(
 CHECKS["C16"] = dict(
     engine="bfs",
     technique="explicit-state BFS per component pair (in-memory implementation, SQLite implementation, reference model written from the abstract-base-class contract) over the public operation alphabet with small universes; result / exception class and a full read-out compared after every operation",
-    text="Orchestrator (85 queries per state: records, existing-by-task/args/status, pagination, counts, filter-by-status, retries, heartbeats / active runners / recovery scans under a frozen dyadic clock, auto-purge with aged seeds, wait graph incl. cycles, purge), state backend (60 queries: invocations, children, results, exceptions, histories, runner contexts, workflow data / runs / sub-invocations, time-range iterators, purge), trigger store (conditions, triggers, valid conditions, events, cron bookkeeping, expiring claims, purge), client data store and broker; work split over configuration x seeded history x first operation; quick depth 3-5 after seeds (52k transitions), thorough 4-8 (427k). 'probe/*' configurations are tiny searches around each suspected divergence, each implementation alone against the literal contract.",
+    text="Orchestrator (85 queries per state: records, existing-by-task/args/status, pagination, counts, filter-by-status, retries, heartbeats / active runners / recovery scans under a frozen dyadic clock, auto-purge with aged seeds, wait graph incl. cycles, purge), state backend (60 queries: invocations, children, results, exceptions, histories, runner contexts, workflow data / runs / sub-invocations, time-range iterators, purge), trigger store (conditions, triggers, valid conditions, events, cron bookkeeping, expiring claims, purge), client data store and broker; work split over configuration x seeded history x first operation; quick depth 3-5 after seeds (52k transitions), thorough 4-8 (427k). 'probe/*' configurations are tiny searches around each suspected divergence, each implementation alone against the literal contract. Key-lookup part: a two-argument task, four overlapping calls, look-ups with 1-2 key pairs as operations of the history (a look-up must not change what a later look-up returns), all sequences to depth 4 (5).",
     note="Only the exhaustive half of the quantifier (no random long sequences). Order compared only where the base class promises one. Eleven recorded findings (known_findings.json), all low-severity divergences or places where both implementations depart from the docstring; operations on ids never registered, batches with tied timestamps and naive datetimes are outside the alphabet (unspecified).",
     design_ref="§2 C16",
 )
